@@ -7,7 +7,11 @@ ids="$@"
 [ -z "$ids" ] && ids=$(ls seeded)
 for id in $ids; do
   prop=$(/venv/bin/python -c "import json;print(json.load(open('seeded/$id/meta.json'))['property'])")
-  out=$(tools/mutate.py patch "$ROOT/seeded/$id/patch.diff" "$prop" 2>&1)
+  pf="$ROOT/seeded/$id/patch.diff"
+  # a change whose lines were later touched by a repair in /repo is kept in its original form and, next to it, rebased
+  rb=$(ls "$ROOT/seeded/$id"/patch.rebased-*.diff 2>/dev/null | tail -1)
+  [ -n "$rb" ] && pf="$rb"
+  out=$(tools/mutate.py patch "$pf" "$prop" 2>&1)
   rc=$(echo "$out" | grep -o "^rc=[0-9]*" | tail -1)
   sigs=$(echo "$out" | grep -o "signature=[^ ]*" | sort -u | head -3 | tr '\n' ' ')
   wall=$(echo "$out" | grep -o "wall=[0-9]*s" | tail -1)
